@@ -14,6 +14,17 @@ HARNESS = ("harness/cmd/vharness (Go, built against /repo's working tree with -t
 NOT_APPLICABLE = {}
 
 PROPS = {
+    "C12": {
+        "design_ref": "DESIGN.md section 6 (C12)",
+        "projection": "enqueue verdicts; bytes / messages at the peer",
+        "mismatch_is_input": True,
+        "vm_max_len": 300,
+        "timeout": {"quick": 1500, "thorough": 6000},
+        "level_text": "Coq theorems on the write path (Model/WritePath.v: write(), the writer goroutine with its remainder buffer, the socket taking any number of bytes per write) for every interleaving of enqueues by any number of writers with writer steps: in every reachable state socket bytes ++ remainder ++ queued items = handshake ++ accepted frames in acceptance order (so the peer holds a prefix: never interleaved, torn, duplicated or lost; all of it once drained); the handshake stays first; an enqueue is a single step that always returns, accepted iff open and room, a full queue is an error that changes nothing; WebSocket: one binary message per accepted frame in order. Tie: real tcpConn/wsConn from the registered dialers against stalled, slow and normal peers, queue sizes 1..16, frames 1 B..1 MiB, gzip thresholds; sequential runs compared with the model, concurrent writers by direct oracle on the peer's stream.",
+        "level_note": "Trusted: kernel, extraction, harness incl. the reference decoder at the peer. The frame bytes are Pack's (C02). Short socket writes are modelled although real sockets report an error with them.",
+        "assumptions": ["Go channel = FIFO with non-blocking send", "net.Conn.Write writes the bytes it reports", "gorilla WriteMessage sends one message per call"],
+        "modelled": "tcpConn.Write/write/writing, dialTCPConn handshake enqueue, wsConn.write/writing, the version query of dialWSConn",
+    },
     "C13": {
         "design_ref": "DESIGN.md section 6 (C13)",
         "projection": "handler invocation sequence, logged drops, dispatched count",
